@@ -1,4 +1,5 @@
 import Spine.TeardownServe
+import Spine.TeardownServeHist
 /-!
 # C10 — "every other peer … continues to be served": a frame theorem over RESPONSES
 
@@ -65,6 +66,17 @@ theorem c10s_bind_served (x : Ctx) (F : Facts) (hF : F.ok = true) (s : St) (hs :
   ⟨serve_bind_frame (world_drop_frame x F hF s hs k) q hq ctr ack c a t hfree,
    serve_bind_frame (world_dropEntity_frame x F hF s hs k ent) q hq ctr ack c a t hfree⟩
 
+/-- HISTORIES: after either kind of teardown about connection `k`, along EVERY history of datagrams of the other
+    connections, of their subscription requests / deletes and binding deletes, and of data changes by the local application
+    (whose subscribers are notified), every step's outputs on every connection other than `k`'s are exactly those of the
+    same history without the teardown — the other peers are served identically from then on, not only for one request. -/
+theorem c10s_history_served (x : Ctx) (F : Facts) (hF : F.ok = true) (s : St) (hs : Inv s) (k : Nat) (ent : List Nat)
+    (rs : List Req) (hok : ∀ r ∈ rs, r.okFor k = true) :
+    reqRun k (world x (drop F s k).1) rs = reqRun k (world x s) rs ∧
+    reqRun k (world x (dropEntity F s k ent).1) rs = reqRun k (world x s) rs :=
+  ⟨serve_history_frame rs (world_drop_frame x F hF s hs k) hok,
+   serve_history_frame rs (world_dropEntity_frame x F hF s hs k ent) hok⟩
+
 /-! ### non-vacuity: two connections with IDENTICAL numbering, both subscribed to the local server feature [1]/1,
     connection 2 bound to it; local server features [1]/1 and [2]/1 with a readable and writable function 7 -/
 
@@ -123,6 +135,20 @@ example :
     (processCall (world x0 w0) 2 9 true (.bind ([1], 2) ([2], 1) 5)).2 = [(2, .result (some 9) 1 nmAddr nmAddr (some 0))] ∧
     (processCall (world x0 (drop Facts.head w0 1).1) 2 9 true (.bind ([1], 2) ([2], 1) 5)).2 = [(2, .result (some 9) 0 nmAddr nmAddr (some 0))] := by
   decide
+
+/-- a history after the teardown of connection 1: connection 2 subscribes [1]/2 as well, writes 42, the application sets 43,
+    connection 2 reads — five outputs in four steps, the same with and without the teardown once the removed connection's
+    share is left out (without the teardown connection 1 is notified twice) -/
+def hist : List Req :=
+  [.call 2 9 true (.sub ([1], 2) ([1], 1) 5), .dg 2 wr, .setData ([1], 1) 7 43, .dg 2 rd]
+
+example : (∀ r ∈ hist, r.okFor 1 = true) ∧
+    reqRun 1 (world x0 (drop Facts.head w0 1).1) hist =
+      [[(2, .result (some 9) 0 nmAddr nmAddr (some 0))],
+       [(2, .notify 7 ([1], 1) ([1], 1) 42), (2, .notify 7 ([1], 1) ([1], 2) 42), (2, .result (some 5) 0 ([1], 1) ([1], 1) (some 0))],
+       [(2, .notify 7 ([1], 1) ([1], 1) 43), (2, .notify 7 ([1], 1) ([1], 2) 43)],
+       [(2, .reply (some 6) 7 ([1], 1) ([1], 1) 43 (some 0))]] ∧
+    ((reqRun 0 (world x0 w0) hist).map fun l => (l.filter fun o => o.1 = 1).length) = [0, 1, 1, 0] := by decide
 
 /-- Sharpness: with the comparisons of the pinned commit (`RemoveBindingsForEntity` compared the entity address only,
     `Facts.pinned`, not `ok`) the removal of connection 1 takes connection 2's binding, and connection 2's write — accepted
